@@ -306,6 +306,24 @@ theorem weak_midflight (β : Beh) (m : M) (i o : Nat) (g : Bool) (hnr : ownerRun
     have := gone_silent β m1 e.eid ⟨_, hg, rfl⟩ n f s e hc rfl
     rw [hm1] at this; exact this
 
+/-- non-vacuity of `weak_midflight`: A (strong), W (weak, owner 1), C (strong) subscribe to event 0; A collects owner 1
+during the delivery.  `mid false`: W is reached (it is in the snapshot) but its code does not run, C runs.  `mid true`: A
+first calls `clearHandlers`, so W's proxy cannot remove itself and raises ReventError("object is gone"): the delivery
+ends there, C is not reached. -/
+def midβ (clearFirst : Bool) : Beh := fun hid log =>
+  if hid = 1 ∧ log.length < 6 then
+    ⟨none, (if clearFirst then [(⟨0, .clear⟩, false)] else []) ++ [(⟨0, .dropOwner 1⟩, false)], .none⟩
+  else ⟨none, [], .none⟩
+def midops : List SAct := [⟨0, .add 0 1 0 false none⟩, ⟨0, .add 0 2 0 false (some 1)⟩, ⟨0, .add 0 3 0 false none⟩, ⟨0, .raise 0 .inst false⟩]
+def mid (c : Bool) (n : Nat) : M := run (midβ c) n (M.init Variant.asIs (fresh cfg01) midops)
+def eW : Entry := ⟨0, 2, false, 2, some 1⟩
+example : ownerRunning (mid false 9).stack 1 = false ∧ (mid false 9).stack.map (·.rest) = [[eW, ⟨0, 3, false, 3, none⟩]] := by decide
+example : callsOf 0 (mid false 30).log = [⟨0, 1, false, 1, none⟩, eW, ⟨0, 3, false, 3, none⟩] ∧ (mid false 30).gone = [(2, false)] ∧
+    Ev.call 0 0 eW false ∈ (mid false 30).log ∧ Ev.call 0 0 eW true ∉ (mid false 30).log ∧
+    Ev.endf 0 false (.ok (.event false)) ∈ (mid false 30).log := by decide
+example : callsOf 0 (mid true 30).log = [⟨0, 1, false, 1, none⟩, eW] ∧ (mid true 30).gone = [(2, true)] ∧
+    Ev.endf 0 false (.exc .revent) ∈ (mid true 30).log ∧ (mid true 30).stack = [] := by decide
+
 /-- **lazy_init.** The listener counter is exact on an initialised source and raises `AttributeError` on one whose
 handler dictionary does not exist yet; subscribing (even when rejected), unsubscribing (even with a missing key),
 raising (even when rejected) and clearing create the dictionary; and once it exists it exists for ever, whatever happens. -/
